@@ -3,6 +3,8 @@
  (a) Hamiltonian objects: LocalHam1D / LocalHamGen on symbolic one- and two-site terms: the
      stored terms sum to the supplied operator, `get_gate(where)` returns the term with its
      factors in the order of `where`, `get_gate_expm` exponentiates exactly that term times x.
+     The same for the lattice constructors LocalHam2D / LocalHam3D (default term + specific terms keyed in
+     either site order, open / periodic, sides of length 2).
  (b) schedule and time bookkeeping: the real `TEBD.update_to / step / sweep / at_times` run
      concolically on symbolic t0, dt, T (with (T - t0) <= 3 dt) while the MPS work is replaced by
      a recorder; goals: t == T exactly at return, queue drained, the recorded sweep sequence
@@ -12,6 +14,8 @@
  (c) one real step through the real sweeps (no recorder) with the matrix exponential replaced by
      an uninterpreted symbolic matrix per generator: the evolved state equals the reference
      product applied to the initial state, the generators are -i dt frac * term(bond).
+ (d) arbitrary-geometry sweeps (TEBDGen), (e) call histories (evolve / read `.state` / assign `.state`) on one
+     SimpleUpdateGen / 2D SimpleUpdate / TEBDGen driver - numeric-only.
 """
 import itertools
 
@@ -30,11 +34,24 @@ PROP = "C11"
 META = {
     "bounds": {
         "quick": {"L": "2-5 (terms), 3-5 (bookkeeping), 3-4 (real sweeps)", "boundaries": "open and periodic", "orders": "1, 2, 4",
+                  "lattices": "LocalHam2D 2x2, 2x3, 3x2, 1x3 and LocalHam3D 2x2x2, open / periodic; H2 as array, full dict or default + overrides, keys in "
+                              "generator / reversed / alternating orientation; H1 none / array / dict / default + overrides (dense sum up to 6 sites, per pair beyond)",
+                  "driver histories": "7 histories of <= 11 calls (evolve 1-3 sweeps, read, assign checkpoint / fresh state / fresh state with smaller bonds / own "
+                                      "(tensors, gauges) pair) on 4-site chain, star, ring, 2x2 PEPS; D = full (trees) or 2 (loops), cutoff 0, update 'sequential' and 'parallel', "
+                                      "equilibrate_every None / 1; random float inputs (numeric-only)",
                   "times": "t0, dt, T symbolic reals with 0 < dt, 0 <= T - t0 <= 3 dt (<= 4 steps); sequences of two targets"},
-        "thorough": {"L": "up to 6", "times": "(T - t0) <= 4 dt"},
+        "thorough": {"L": "up to 6", "times": "(T - t0) <= 4 dt", "lattices": "also 3x3, 2x2x3, 3x2x2, per-axis periodicity in 2D, every H2 x H1 mode",
+                     "driver histories": "every driver x history, equilibrate_every None / 1 / 'gate'"},
     },
     "outside": ["numerical convergence rate measurements, accuracy of the `err` estimate", "truncation (cutoff = 0)",
-                "2D / 3D / arbitrary-geometry simple-update TEBD beyond the Hamiltonian object (a)",
+                "2D / 3D / arbitrary-geometry simple-update TEBD beyond the Hamiltonian objects (a), the sweep structure (d) and the state-assignment "
+                "histories (e); (e) is numeric-only (random floats): the symbolic route (SVD stubs + inverse gauges) timed out on a 3-site chain with one sweep",
+                "update='parallel' with an equilibration period: only history independence is checked (not a product formula by construction); "
+                "update='parallel' with equilibrate_every=<int> started from a state whose bonds grow during the first sweep (ValueError in quimb, "
+                "also without any assignment - reported)",
+                "assigning a state whose bond *names* differ from the current ones, energy tracking / keep_best / tol stopping",
+                "periodic lattices with a side of length 1; for a periodic side of length exactly 2 the reference is ONE term per pair (default term oriented "
+                "(smaller site, larger site))",
                 "the value of the matrix exponential (uninterpreted per generator in (c); real scipy expm in the numeric cross-run)",
                 "odd periodic chains: the even/odd/boundary colouring is not a symmetric splitting (documented); only structure is checked"],
     "assumptions": ["(b) replaces the MPS and the Hamiltonian cache by recorders; their own correctness is (c) / C06 / C08",
@@ -124,6 +141,154 @@ def local_ham_terms(mk, L, cyclic, mode, h1):
             srt = tuple(sorted(where))
             mk.eq(f"get_gate({where}) acts on sites in the order of `where`",
                   ref.embed(g, dims, where), ref.embed(np.asarray(ham.terms[srt]), dims, srt))
+
+
+# --- the same claim for the lattice constructors LocalHam2D / LocalHam3D (default term + overrides in either orientation)
+
+def _lattice_bonds(shape, cyclic):
+    """independent enumeration of the nearest-neighbour pairs of an open / periodic hyper-cubic lattice: one entry per
+    unordered pair, oriented (site, site + unit step) - the wrap-around pair of a periodic side of length >= 3 is
+    (last, first); a periodic side of length exactly 2 has a single pair (which is already in the open lattice)"""
+    nd = len(shape)
+    cyc = tuple(cyclic) if isinstance(cyclic, (tuple, list)) else (cyclic,) * nd
+    bonds = []
+    for coo in itertools.product(*[range(n) for n in shape]):
+        for ax in reversed(range(nd)):
+            c2 = list(coo)
+            c2[ax] += 1
+            if c2[ax] >= shape[ax]:
+                if not (cyc[ax] and shape[ax] > 2):
+                    continue
+                c2[ax] = 0
+            bonds.append((coo, tuple(c2)))
+    assert len({frozenset(b) for b in bonds}) == len(bonds)
+    return bonds
+
+
+def _lattice_inputs(mk, shape, cyclic, mode, h1):
+    """H2 / H1 arguments for LocalHam2D / LocalHam3D and, independently, the supplied operator as
+    {(site a, site b): 4x4 term acting on (a, b) in that order} + {site: 2x2 term}"""
+    bonds = _lattice_bonds(shape, cyclic)
+    sites = list(itertools.product(*[range(n) for n in shape]))
+    nm = lambda c: "".join(map(str, c))
+    per_bond = {}
+    if mode == "single":
+        a = mk.array("H2", (d * d, d * d), "cplx")
+        H2 = a
+        per_bond = {b: a for b in bonds}
+    elif mode in ("dict", "dict-flipped", "dict-mixed"):
+        H2 = {}
+        for k, (a, b) in enumerate(bonds):
+            flip = mode == "dict-flipped" or (mode == "dict-mixed" and k % 2 == 1)
+            key = (b, a) if flip else (a, b)
+            H2[key] = per_bond[key] = mk.array(f"H2_{nm(key[0])}_{nm(key[1])}", (d * d, d * d), "cplx")
+    else:
+        # default (None) term + overrides on a subset of the bonds (every third bond, the first and the last one - the
+        # last one is a wrap-around bond on periodic lattices), keyed in the generator's orientation / reversed / alternating
+        a0 = mk.array("H2", (d * d, d * d), "cplx")
+        H2 = {None: a0}
+        nover = 0
+        for k, (a, b) in enumerate(bonds):
+            if k % 3 == 0 or k == len(bonds) - 1:
+                flip = mode == "default+override-flipped" or (mode == "default+override-mixed" and nover % 2 == 0)
+                nover += 1
+                key = (b, a) if flip else (a, b)
+                H2[key] = per_bond[key] = mk.array(f"H2o_{nm(key[0])}_{nm(key[1])}", (d * d, d * d), "cplx")
+            else:
+                per_bond[(a, b)] = a0
+    per_site = {}
+    H1 = None
+    if h1 == "single":
+        H1 = mk.array("H1", (d, d), "cplx")
+        per_site = {s: H1 for s in sites}
+    elif h1 == "dict":
+        H1 = {s: mk.array(f"H1_{nm(s)}", (d, d), "cplx") for s in sites}
+        per_site = dict(H1)
+    elif h1 == "default+override":
+        h0 = mk.array("H1", (d, d), "cplx")
+        H1 = {None: h0}
+        for k, s in enumerate(sites):
+            if k % 2 == 1:
+                H1[s] = mk.array(f"H1o_{nm(s)}", (d, d), "cplx")
+            per_site[s] = H1.get(s, h0)
+    return H2, H1, bonds, sites, per_bond, per_site
+
+
+_LAT_MODES = ("single", "dict", "dict-flipped", "dict-mixed", "default+override", "default+override-flipped", "default+override-mixed")
+
+
+def _lat_tiers(shape, cyclic, mode, h1):
+    n = int(np.prod(shape))
+    quick = False
+    if len(shape) == 2 and n <= 6 and cyclic in (False, True):
+        if mode.startswith("default+override"):
+            quick = h1 is None or (n == 4 and h1 == "default+override") or (shape == (2, 3) and cyclic and h1 == "dict")
+        elif mode in ("single", "dict-mixed"):
+            quick = (n == 4 and h1 in (None, "single")) or (shape == (2, 3) and h1 is None and not cyclic)
+    if shape == (2, 2, 2):
+        quick = mode in ("default+override-flipped", "default+override-mixed") and h1 is None
+    return ("quick", "thorough") if quick else ("thorough",)
+
+
+_LP = [{"shape": s, "cyclic": c, "mode": m, "h1": h, "_tiers": _lat_tiers(s, c, m, h)}
+       for s in ((2, 2), (2, 3), (3, 2), (1, 3), (3, 3), (2, 2, 2), (2, 2, 3), (3, 2, 2))
+       for c in ((False, True, (True, False), (False, True)) if len(s) == 2 else (False, True))
+       for m in _LAT_MODES for h in (None, "single", "dict", "default+override")
+       if not (c is not False and 1 in s)
+       and not (int(np.prod(s)) > 6 and h is not None and m in ("dict", "dict-flipped", "single"))]
+
+
+@obligation(PROP, params=_LP, timeout_s=400, wall_s=300)
+def local_ham_terms_lattice(mk, shape, cyclic, mode, h1):
+    """LocalHam2D / LocalHam3D: the stored terms are exactly the supplied ones - a default (None) term on every
+    nearest-neighbour pair that has no specific term, specific terms keyed in either site order, open / periodic lattices
+    including sides of length 2 - per pair and as the dense sum (one-site terms included); get_gate honours `where`"""
+    from quimb.tensor.tn2d import tebd as t2
+    from quimb.tensor.tn3d import tebd as t3
+    cls = qtn.LocalHam2D if len(shape) == 2 else qtn.LocalHam3D
+    mk.encodes(tg.LocalHamGen.__init__, t2.LocalHam2D.__init__, t3.LocalHam3D.__init__, tg.LocalHamGen.get_gate, tg.LocalHamGen._flip_cached,
+               tg.LocalHamGen._op_id_cached, tg.LocalHamGen._id_op_cached)
+    if len(shape) == 3 and cyclic:
+        # (LocalHam3D passes `cyclic` to gen_3d_bonds like the 2D class)
+        pass
+    H2, H1, bonds, sites, per_bond, per_site = _lattice_inputs(mk, shape, cyclic, mode, h1)
+    H2_keys0 = sorted(map(repr, H2)) if isinstance(H2, dict) else None
+    ham = cls(*shape, H2=H2, H1=H1, cyclic=cyclic)
+    if H2_keys0 is not None:
+        mk.same("the caller's H2 dict is not modified", sorted(map(repr, H2)), H2_keys0)
+    mk.same("one stored term per nearest-neighbour pair", sorted(tuple(sorted(k)) for k in ham.terms), sorted(tuple(sorted(b)) for b in bonds))
+    mk.same("stored keys are (smaller site, larger site)", all(k[0] < k[1] for k in ham.terms), True)
+    two = [d, d]
+    if h1 is None:
+        for key, a in per_bond.items():
+            srt = tuple(sorted(key))
+            if srt not in ham.terms:
+                continue
+            mk.eq(f"stored term of the pair {srt} == the supplied term of that pair (supplied on {key})",
+                  np.asarray(ham.terms[srt]), ref.embed(a, two, (0, 1) if key == srt else (1, 0)))
+    n = len(sites)
+    if n <= 6:
+        dims = [d] * n
+        pos = {s: i for i, s in enumerate(sites)}
+        total = None
+        for key, a in per_bond.items():
+            e = ref.embed(a, dims, (pos[key[0]], pos[key[1]]))
+            total = e if total is None else total + e
+        for s, a in per_site.items():
+            total = total + ref.embed(a, dims, (pos[s],))
+        tot = None
+        for where, term in ham.terms.items():
+            e = ref.embed(np.asarray(term), dims, (pos[where[0]], pos[where[1]]))
+            tot = e if tot is None else tot + e
+        mk.eq("sum of stored terms (embedded on their keys) == sum of the supplied two- and one-site terms", tot, total)
+    for a, b in bonds:
+        srt = tuple(sorted((a, b)))
+        if srt not in ham.terms:
+            continue
+        for where in ((a, b), (b, a)):
+            g = np.asarray(ham.get_gate(where))
+            mk.eq(f"get_gate({where}) acts on sites in the order of `where`",
+                  g, ref.embed(np.asarray(ham.terms[srt]), two, (0, 1) if where == srt else (1, 0)))
 
 
 @obligation(PROP, params=[{"L": 3, "cyclic": c} for c in (False, True)])
@@ -624,3 +789,179 @@ def gen_sweeps(mk, geom, ordering, reflect):
                   np.asarray(ref.tn_dense(out, sinds)).reshape(-1), v)
     finally:
         _uninstall_expm(rec)
+
+
+# ---------------------------------------------------------------------- (e) call histories on one simple-update / TEBDGen driver
+
+_SUH = {
+    # E<k>: evolve k sweeps; C: take a checkpoint (`drv.state`); Ac: assign the checkpoint through the public `state` setter;
+    # Af: assign a fresh state with the same index names and bond sizes; As: the same with smaller bonds; Ap: assign the
+    # driver's own (tensors, gauges) pair as returned by get_state("return"); R: read `drv.state` and compare
+    "restore-checkpoint": ("E2", "C", "R", "E3", "R", "Ac", "R", "E2", "R"),
+    "fresh-state": ("E2", "Af", "R", "E2", "R", "E1", "R"),
+    "fresh-smaller-bonds": ("E2", "As", "R", "E2", "R"),
+    "assign-before-evolving": ("Af", "R", "E2", "R"),
+    "assign-twice": ("E1", "C", "E1", "Ac", "R", "E1", "R", "Ac", "R", "E2", "R"),
+    "checkpoint-immediately": ("E2", "C", "Ac", "R", "E2", "R"),
+    "own-pair-roundtrip": ("E2", "Ap", "R", "E2", "R"),
+}
+_SUD = ("SimpleUpdateGen-chain", "SimpleUpdateGen-star", "SimpleUpdate-2x2", "SimpleUpdateGen-ring", "TEBDGen-chain")
+
+
+def _suh_tiers(drv, h, eq):
+    q = (eq is None and (drv in ("SimpleUpdateGen-chain", "SimpleUpdate-2x2") or h in ("restore-checkpoint", "fresh-state"))
+         ) or (eq == 1 and drv == "SimpleUpdateGen-chain" and h in ("restore-checkpoint", "assign-twice"))
+    return ("quick", "thorough") if q else ("thorough",)
+
+
+_SUP = [{"driver": drv, "history": h, "equil": eq, "_tiers": _suh_tiers(drv, h, eq)}
+        for drv in _SUD for h in _SUH for eq in (None, 1, "gate")
+        if not (drv.startswith("TEBDGen") and (eq is not None or h == "own-pair-roundtrip"))
+        # (on loops the gates truncate and the equilibration run by the setter changes which part is kept: continuing after
+        #  re-assigning the driver's own pair is then not comparable with anything independent)
+        and not (h == "own-pair-roundtrip" and drv.split("-")[1] in ("2x2", "ring"))]
+# update='parallel' (every gate of a layer acts on the state before the layer; with an equilibration period the layers of a whole
+# sweep do - not a product formula, and not gauge independent: there only "no memory of the earlier evolution" is claimed)
+_SUP += [{"driver": drv, "history": h, "equil": eq, "update": "parallel",
+          "_tiers": ("quick", "thorough") if (eq is None and (h in ("restore-checkpoint", "fresh-state") or (drv.endswith("chain") and h == "assign-twice")))
+          or (eq == 1 and drv.endswith("chain") and h == "restore-checkpoint") else ("thorough",)}
+         for drv in ("SimpleUpdateGen-chain", "SimpleUpdateGen-star", "SimpleUpdate-2x2", "SimpleUpdateGen-ring") for h in _SUH for eq in (None, 1, "gate")
+         if not (h == "own-pair-roundtrip" and (drv.split("-")[1] in ("2x2", "ring") or eq is not None))
+         # (parallel + a sweep-level equilibration period + bonds that grow inside a sweep: quimb raises "shape-mismatch for sum" on a
+         #  FRESH driver as well - the layers of one sweep are merged with different bond sizes; reported, independent of the histories)
+         and not (h == "fresh-smaller-bonds" and eq == 1)]
+
+
+def _suh_setup(mk, driver):
+    """geometry, Hamiltonian (site dependent, not exchange symmetric, Hermitian), a state factory"""
+    kind, geom = driver.split("-")
+    if geom == "chain":
+        sites = [0, 1, 2, 3]
+        edges = [(0, 1), (1, 2), (2, 3)]
+        full = {(0, 1): 2, (1, 2): 4, (2, 3): 2}
+    elif geom == "star":
+        sites = [0, 1, 2, 3]
+        edges = [(0, 1), (1, 2), (1, 3)]
+        full = {e: 2 for e in edges}
+    elif geom == "ring":
+        sites = [0, 1, 2, 3]
+        edges = [(0, 1), (1, 2), (2, 3), (0, 3)]
+        full = {e: 2 for e in edges}        # a loop: gating truncates back to D = 2 (no dense product reference)
+    else:
+        sites = [(0, 0), (0, 1), (1, 0), (1, 1)]
+        edges = [((0, 0), (0, 1)), ((0, 0), (1, 0)), ((0, 1), (1, 1)), ((1, 0), (1, 1))]
+        full = {e: 2 for e in edges}        # a loop as well
+    H2 = {}
+    for k, e in enumerate(edges):
+        a = np.asarray(mk.array(f"h{k}", (d * d, d * d), "real"), dtype=float)
+        H2[e] = (a + a.T) / 2
+    if kind == "SimpleUpdate":
+        ham = qtn.LocalHam2D(2, 2, H2=H2)
+    else:
+        ham = qtn.LocalHamGen(H2)
+    nm = (lambda s: "".join(map(str, s))) if geom == "2x2" else str
+    bname = {e: f"b{nm(e[0])}_{nm(e[1])}" for e in edges}
+
+    def make_state(tag, sizes):
+        ts = []
+        for s in sites:
+            inds = [bname[e] for e in edges if s in e]
+            shp = [sizes[e] for e in edges if s in e]
+            arr = np.asarray(mk.array(f"{tag}_{nm(s)}", tuple(shp) + (d,), "real"), dtype=float)
+            if geom == "2x2":
+                ts.append(qtn.Tensor(arr, inds + [f"k{s[0]},{s[1]}"], tags=[f"I{s[0]},{s[1]}", f"X{s[0]}", f"Y{s[1]}"]))
+            else:
+                ts.append(qtn.Tensor(arr, inds + [f"k{s}"], tags=[f"I{s}"]))
+        tn = qtn.TensorNetwork(ts)
+        if kind == "SimpleUpdate":
+            return tn.view_as_(qtn.PEPS, site_tag_id="I{},{}", x_tag_id="X{}", y_tag_id="Y{}", Lx=2, Ly=2, site_ind_id="k{},{}")
+        return tn.view_as_(qtn.TensorNetworkGenVector, site_tag_id="I{}", site_ind_id="k{}", sites=sites)
+
+    return kind, geom, sites, edges, full, H2, ham, make_state
+
+
+@obligation(PROP, params=_SUP, numeric=True, timeout_s=300)
+def driver_state_histories(mk, driver, history, equil, update="sequential"):
+    """histories of evolve / read `.state` / assign `.state` on ONE SimpleUpdateGen / 2D SimpleUpdate / TEBDGen object (update
+    mode 'sequential' and 'parallel'): a state read right after an assignment is the assigned state; after k further sweeps the state is what a
+    fresh driver with the same options produces from the last assigned state in k sweeps (no memory of the earlier evolution),
+    and - on trees at full bond dimension, where nothing is truncated (and, for update='parallel', when every layer is accepted
+    before the next one: equilibrate_every None) - the normalised dense product formula"""
+    mk.encodes(tg.GateSimpleUpdateMixin.set_state, tg.GateSimpleUpdateMixin.get_state, tg.GateSimpleUpdateMixin.equilibrate,
+               tg.GateSimpleUpdateMixin.postsweep, tg.GateSimpleUpdateMixin.postgate, tg.GateSimpleUpdateMixin.postlayer, tg.GateBasicMixin.set_state,
+               tg.GateBasicMixin.get_state,
+               tg.TEBDSweepMixin.evolve, tg.TEBDSweepMixin.sweep)
+    if mk.sym:
+        mk.note("numeric-only: gauge conditioning (repeated SVD + inverse gauges over several sweeps) does not run symbolically within budget")
+        mk.same("numeric-only cell (symbolic run skipped)", True, True)
+        return
+    import scipy.linalg as sla
+    kind, geom, sites, edges, full, H2, ham, make_state = _suh_setup(mk, driver)
+    exact = geom in ("chain", "star") and (update == "sequential" or equil is None)
+    tau = 0.125
+    sinds = lambda psi: tuple(psi.site_ind(s) for s in sites)
+    dense = lambda psi: np.asarray(ref.tn_dense(psi, sinds(psi)), dtype=float).reshape(-1)
+    unit = lambda v: v / np.sqrt(float(np.dot(v, v)))
+    cls = {"SimpleUpdateGen": qtn.SimpleUpdateGen, "SimpleUpdate": qtn.SimpleUpdate, "TEBDGen": qtn.TEBDGen}[kind]
+    ordering = [tuple(e) for e in edges]
+    D = max(full.values())
+
+    def new_driver(psi):
+        opts = dict(tau=tau, D=D, cutoff=0.0, ordering=list(ordering), compute_energy_final=False, progbar=False)
+        if kind != "TEBDGen":
+            opts["equilibrate_every"] = equil
+            opts["update"] = update
+        return cls(psi, ham, **opts)
+
+    def ref_product(v, k):
+        dims = [d] * len(sites)
+        pos = {s: i for i, s in enumerate(sites)}
+        for _ in range(k):
+            for e in ordering:
+                v = ref.matmul(ref.embed(sla.expm(-tau * H2[e]), dims, (pos[e[0]], pos[e[1]])), v)
+        return v
+
+    psi0 = make_state("A", full)
+    drv = new_driver(psi0)
+    base, since = psi0, 0          # the last state handed to the driver, and the sweeps made since
+    chk = None
+    nfresh = 0
+    for q, op in enumerate(history_ops := _SUH[history]):
+        lab = f"op {q} ({op})"
+        if op[0] == "E":
+            drv.evolve(int(op[1:]), tau=tau)
+            since += int(op[1:])
+        elif op == "C":
+            chk = (drv.state, base, since)
+        elif op == "Ac":
+            given = chk[0]
+            v_given = dense(given)
+            drv.state = given
+            mk.eq(f"{lab}: the assigned network is not modified by the setter", dense(given), v_given)
+            base, since = given, 0
+        elif op in ("Af", "As"):
+            nfresh += 1
+            sizes = full if op == "Af" else {e: max(1, n // 2) for e, n in full.items()}
+            given = make_state(f"F{nfresh}", sizes)
+            drv.state = given
+            base, since = given, 0
+        elif op == "Ap":
+            pair = drv.get_state(absorb_gauges="return")
+            cur = drv.state
+            drv.state = pair
+            mk.eq(f"{lab}: assigning the driver's own (tensors, gauges) pair leaves the state unchanged", unit(dense(drv.state)), unit(dense(cur)))
+        elif op == "R":
+            got = drv.state
+            v = dense(got)
+            if since == 0:
+                mk.eq(f"{lab}: state read right after the assignment == the assigned state", v, dense(base))
+            else:
+                other = new_driver(base)
+                other.evolve(since, tau=tau)
+                mk.eq(f"{lab}: {since} sweeps after the assignment == a fresh driver started from the assigned state",
+                      unit(v), unit(dense(other.state)))
+                if exact:
+                    mk.eq(f"{lab}: {since} sweeps after the assignment == normalised product formula applied to the assigned state",
+                          unit(v), unit(ref_product(dense(base), since)))
+            mk.same(f"{lab}: index names of the state are those of the assigned one", sorted(got.ind_map), sorted(base.ind_map))
+    mk.same("sweeps counted over the whole history", drv.n, sum(int(o[1:]) for o in history_ops if o[0] == "E"))
